@@ -274,13 +274,27 @@ Definition refs_in (pub : list string) (c : pclass) : Prop :=
 Lemma refs_in_mono pub pub' c : refs_in pub c -> incl pub pub' -> refs_in pub' c.
 Proof. intros H I pf n H1 H2. apply I. eapply H; eauto. Qed.
 
-Definition scope_inv (S : schema) (frs : list fragdef) (rec : ptd_fun) : Prop :=
+(* ---- the typed leaf discipline: GraphQL's ScalarLeafs rule along the generator's own typed traversal.
+   H tn sels reads "the selection list sels is selected on type tn and obeys the rule":
+   a field selected without sub-selection has a scalar/enum type IN tn; a field selected with a sub-selection
+   hands the rule on to that sub-selection at every type a class is generated for. ---- *)
+Definition typed_leafs (C : cfg) (S : schema) (frs : list fragdef) (H : string -> list sel -> Prop) : Prop :=
+  forall tn sels, H tn sels ->
+    (forall t, schema_field_type S tn "__typename" = Ok t -> leaf_gtype S t = true) /\
+    forall fuel fields mixins, resolve fuel S frs false sels tn = Ok (fields, mixins) ->
+    forall f, In f fields ->
+      (fn_sub f = None -> forall t, schema_field_type S tn (fn_name f) = Ok t -> leaf_gtype S t = true) /\
+      (forall sub, fn_sub f = Some sub ->
+         forall fuel' cn tv at0 pf ctx, field_pf C S frs fuel' cn tn tv at0 f = Ok (pf, ctx) ->
+         forall rc, In rc (x_related ctx) -> H (r_type rc) sub).
+
+Definition scope_inv (H : string -> list sel -> Prop) (rec : ptd_fun) : Prop :=
   forall pub cn tn sels at_ eb tv out pub' sk,
     rec pub cn tn sels at_ eb tv = Ok (out, pub', sk) ->
     incl pub pub' /\ In cn pub' /\
     (forall n, In n pub' -> In n pub \/ In n (map c_name out)) /\
     (forall c, In c out -> In (c_name c) pub') /\
-    (leaf_disc S frs sels -> forall c, In c out -> refs_in pub' c).
+    (H tn sels -> forall c, In c out -> refs_in pub' c).
 
 Ltac split5 := split; [|split; [|split; [|split]]].
 Ltac split4 := split; [|split; [|split]].
@@ -288,17 +302,19 @@ Ltac split4 := split; [|split; [|split]].
 Section ScopeInv.
   Variable rec : ptd_fun.
   Variables (C : cfg) (S : schema) (frs : list fragdef) (fuel' : nat).
-  Hypothesis Hrec : scope_inv S frs rec.
+  Variable H : string -> list sel -> Prop.
+  Hypothesis HH : typed_leafs C S frs H.
+  Hypothesis Hrec : scope_inv H rec.
 
   Lemma subs_run_scope ctx f sub : forall rcs pub cls pub' sk,
     subs_run rec S ctx f sub rcs pub cls pub' sk ->
     incl pub pub' /\ (forall rc, In rc rcs -> In (r_class rc) pub') /\
     (forall n, In n pub' -> In n pub \/ In n (map c_name cls)) /\
     (forall c, In c cls -> In (c_name c) pub') /\
-    (leaf_disc S frs sub -> forall c, In c cls -> refs_in pub' c).
+    ((forall rc, In rc rcs -> H (r_type rc) sub) -> forall c, In c cls -> refs_in pub' c).
   Proof.
-    intros rcs pub cls pub' sk H.
-    induction H as [pub | rc rcs pub qc qp qs cls pub' sk Hq Hrun IH].
+    intros rcs pub cls pub' sk R.
+    induction R as [pub | rc rcs pub qc qp qs cls pub' sk Hq Hrun IH].
     - split5; [apply incl_refl | intros ? [] | auto | intros ? [] | intros _ ? []].
     - apply Hrec in Hq. destruct Hq as (Q1 & Q2 & Q3 & Q4 & Q5). destruct IH as (I1 & I2 & I3 & I4 & I5).
       split5.
@@ -308,13 +324,15 @@ Section ScopeInv.
         destruct (Q3 n Hn'); auto.
       + intros c Hc. apply in_app_or in Hc as [Hc|Hc]; [apply I1, Q4, Hc | apply I4, Hc].
       + intros L c Hc. apply in_app_or in Hc as [Hc|Hc].
-        * eapply refs_in_mono; [apply Q5; auto | exact I1].
-        * apply I5; auto.
+        * eapply refs_in_mono; [apply Q5; [apply L; left; reflexivity | exact Hc] | exact I1].
+        * apply I5; auto. intros rc' Hrc. apply L. right. exact Hrc.
   Qed.
 
   Definition field_hyp (tn : string) (f : fnode) : Prop :=
     (fn_sub f = None -> forall t, schema_field_type S tn (fn_name f) = Ok t -> leaf_gtype S t = true) /\
-    (forall sub, fn_sub f = Some sub -> leaf_disc S frs sub).
+    (forall sub, fn_sub f = Some sub ->
+       forall fuel0 cn tv at0 pf ctx, field_pf C S frs fuel0 cn tn tv at0 f = Ok (pf, ctx) ->
+       forall rc, In rc (x_related ctx) -> H (r_type rc) sub).
 
   Lemma fields_run_scope cn tn tv at_ : forall fs pub pfl extra pub' sk,
     fields_run rec C S frs fuel' cn tn tv at_ fs pub pfl extra pub' sk ->
@@ -325,16 +343,16 @@ Section ScopeInv.
      (forall c, In c extra -> refs_in pub' c) /\
      (forall pf n, In pf pfl -> In n (ann_classes (p_ann pf)) -> In n pub')).
   Proof.
-    intros fs pub pfl extra pub' sk H.
-    induction H as [pub | f fs pub pf ctx exc exp exs pfl extra pub' sk Hpf Hsub Hrun IH].
+    intros fs pub pfl extra pub' sk R.
+    induction R as [pub | f fs pub pf ctx exc exp exs pfl extra pub' sk Hpf Hsub Hrun IH].
     - split4; [apply incl_refl | auto | intros ? [] | intros _; split; [intros ? [] | intros ? ? []]].
     - destruct IH as (I1 & I2 & I3 & I4).
       destruct (field_pf_scope _ _ _ _ _ _ _ _ _ _ _ Hpf) as (P1 & _ & P3).
       apply parse_subs_inv in Hsub. destruct Hsub as [(Hn & -> & -> & _) | (sub & Hs & Hr)].
       + simpl. split4; auto.
         intro Hall. destruct (I4 (fun f0 Hf0 => Hall f0 (or_intror Hf0))) as [J1 J2]. split; [exact J1|].
-        * intros pf0 n [<-|Hin] Hn0; [|eapply J2; eauto].
-          destruct (Hall f (or_introl eq_refl)) as [L _]. rewrite (P3 (L Hn)) in P1. apply P1 in Hn0. destruct Hn0.
+        intros pf0 n [<-|Hin] Hn0; [|eapply J2; eauto].
+        destruct (Hall f (or_introl eq_refl)) as [L _]. rewrite (P3 (L Hn)) in P1. apply P1 in Hn0. destruct Hn0.
       + apply subs_run_scope in Hr. destruct Hr as (R1 & R2 & R3 & R4 & R5).
         split4.
         * eapply incl_tran; eauto.
@@ -344,16 +362,16 @@ Section ScopeInv.
         * intro Hall. destruct (I4 (fun f0 Hf0 => Hall f0 (or_intror Hf0))) as [J1 J2].
           destruct (Hall f (or_introl eq_refl)) as [_ L]. split.
           -- intros c Hc. apply in_app_or in Hc as [Hc|Hc]; [|apply J1, Hc].
-             eapply refs_in_mono; [apply R5; [apply (L sub Hs) | exact Hc] | exact I1].
+             eapply refs_in_mono; [apply R5; [intros rc Hrc; eapply L; eauto | exact Hc] | exact I1].
           -- intros pf0 n [<-|Hin] Hn0; [|eapply J2; eauto].
-          apply P1 in Hn0. apply in_map_iff in Hn0 as (rc & <- & Hrc). apply I1, R2, Hrc.
+             apply P1 in Hn0. apply in_map_iff in Hn0 as (rc & <- & Hrc). apply I1, R2, Hrc.
   Qed.
 
-  Lemma body_scope : scope_inv S frs (parse_body rec C S frs fuel').
+  Lemma body_scope : scope_inv H (parse_body rec C S frs fuel').
   Proof.
-    intros pub cn tn sels at_ eb tv out pub' sk H.
-    apply body_inv in H.
-    destruct H as [(M & -> & -> & _) | (M & fields0 & mixins & pfl & extra & Hres & Hr & kept & _ & ->)].
+    intros pub cn tn sels at_ eb tv out pub' sk E.
+    apply body_inv in E.
+    destruct E as [(M & -> & -> & _) | (M & fields0 & mixins & pfl & extra & Hres & Hr & kept & _ & ->)].
     - apply mem_In in M. split5; [apply incl_refl | exact M | auto | intros ? [] | intros _ ? []].
     - apply fields_run_scope in Hr. destruct Hr as (R1 & R2 & R3 & R4).
       assert (incl pub pub') as Ipub by (intros x Hx; apply R1; apply in_or_app; left; exact Hx).
@@ -362,35 +380,53 @@ Section ScopeInv.
       + intros n Hn. simpl. destruct (R2 n Hn) as [Hn'|Hn']; [|auto].
         apply in_app_or in Hn' as [Hn'|[<-|[]]]; auto.
       + intros c [<-|Hc]; [exact Icn | apply R3, Hc].
-      + intros L.
+      + intros L. destruct (HH tn sels L) as [Lt Lf].
         assert (forall f, In f (add_typename_field at_ fields0) -> field_hyp tn f) as Hall.
         { intros f Hf.
           assert (f = typename_node \/ In f fields0) as [->|Hf0].
           { unfold add_typename_field in Hf. destruct (at_ && negb _); [destruct Hf; auto | auto]. }
-          - split; [| discriminate]. intros _ t Ht. eapply L; [left; reflexivity | exact Ht].
-          - pose proof (resolve_occ S frs fuel' _ _ _ _ _ Hres f Hf0) as O. split.
-            + intros Hn t Ht. rewrite Hn in O. eapply L; [right; exact O | exact Ht].
-            + intros sub Hs. rewrite Hs in O. eapply leaf_disc_sub; eauto. }
+          - split; [| discriminate]. intros _ t Ht. apply Lt. exact Ht.
+          - exact (Lf _ _ _ Hres f Hf0). }
         destruct (R4 Hall) as [J1 J2].
         intros c [<-|Hc]; [| apply J1, Hc]. intros pf n Hpf Hn. simpl in Hpf. eapply J2; eauto.
   Qed.
 End ScopeInv.
 
-Lemma ptd_scope C S frs : forall fuel, scope_inv S frs (parse_type_def fuel C S frs).
+Lemma ptd_scope C S frs H : typed_leafs C S frs H -> forall fuel, scope_inv H (parse_type_def fuel C S frs).
 Proof.
-  induction fuel as [|fuel IH].
-  - intros pub cn tn sels at_ eb tv out pub' sk H. discriminate H.
-  - intros pub cn tn sels at_ eb tv out pub' sk H. simpl in H. eapply body_scope; eauto.
+  intro HH. induction fuel as [|fuel IH].
+  - intros pub cn tn sels at_ eb tv out pub' sk E. discriminate E.
+  - intros pub cn tn sels at_ eb tv out pub' sk E. simpl in E. eapply body_scope; eauto.
 Qed.
 
 (* started from empty _public_names: every class an annotation names is a class of the same output *)
+Theorem ptd_well_scoped_typed C S frs H fuel cn tn sels at_ eb tv out pub' sk :
+  typed_leafs C S frs H -> H tn sels ->
+  parse_type_def fuel C S frs [] cn tn sels at_ eb tv = Ok (out, pub', sk) ->
+  forall c pf n, In c out -> In pf (c_fields c) -> In n (ann_classes (p_ann pf)) -> In n (map c_name out).
+Proof.
+  intros HH L E c pf n Hc Hpf Hn. apply (ptd_scope C S frs H HH) in E. destruct E as (_ & _ & H3 & _ & H5).
+  destruct (H3 n (H5 L c Hc pf n Hpf Hn)) as [[]|K]. exact K.
+Qed.
+
+(* the by-name discipline is one instance of the typed one *)
+Lemma leaf_disc_typed C S frs : typed_leafs C S frs (fun _ sels => leaf_disc S frs sels).
+Proof.
+  intros tn sels L. split.
+  - intros t Ht. eapply L; [left; reflexivity | exact Ht].
+  - intros fuel fields mixins Hres f Hf.
+    pose proof (resolve_occ S frs fuel _ _ _ _ _ Hres f Hf) as O. split.
+    + intros Hn t Ht. rewrite Hn in O. eapply L; [right; exact O | exact Ht].
+    + intros sub Hs fuel' cn tv at0 pf ctx _ rc _. rewrite Hs in O. eapply leaf_disc_sub; eauto.
+Qed.
+
 Theorem ptd_well_scoped C S frs fuel cn tn sels at_ eb tv out pub' sk :
   parse_type_def fuel C S frs [] cn tn sels at_ eb tv = Ok (out, pub', sk) ->
   leaf_disc S frs sels ->
   forall c pf n, In c out -> In pf (c_fields c) -> In n (ann_classes (p_ann pf)) -> In n (map c_name out).
 Proof.
-  intros H L c pf n Hc Hpf Hn. apply ptd_scope in H. destruct H as (_ & _ & H3 & _ & H5).
-  destruct (H3 n (H5 L c Hc pf n Hpf Hn)) as [[]|K]. exact K.
+  intros E L. eapply (ptd_well_scoped_typed C S frs (fun _ sels0 => leaf_disc S frs sels0)); eauto.
+  apply leaf_disc_typed.
 Qed.
 
 Theorem ptd_enums_in_schema C S frs : forall fuel pub cn tn sels at_ eb tv out pub' sk,
